@@ -2,6 +2,7 @@ package main
 
 import (
 	"fmt"
+	"sort"
 	"strings"
 
 	sim "github.com/ah-naf/borno/verifsimrt"
@@ -818,13 +819,15 @@ func c06Systematic(tier string) []*Case {
 		}
 	}
 	// programs that perform no invalid operation: no diagnostic, status 0
-	for name, prog := range map[string]string{
+	cleanProgs := map[string]string{
 		"empty": "", "newline": "\n", "blank-lines": "\n\n   \n", "line-comment": "// nothing here\n", "block-comment": "/* nothing\n here */\n",
 		"only-functions": fmt.Sprintf("%s f() { %s nx; }\n%s g(a) { %s a / 0; }\n", KwFun, KwPrint, KwFun, KwReturn),
 		"empty-block": "{ }\n", "dead-fault": fmt.Sprintf("%s (%s) { %s nx; }\n%s \"ok\";\n", KwIf, KwFalse, KwPrint, KwPrint),
 		"short-circuit": fmt.Sprintf("%s %s %s nx;\n%s %s %s nx;\n", KwPrint, KwTrue, KwOr, KwPrint, KwFalse, KwAnd),
 		"zero-trip-loops": fmt.Sprintf("%s (%s) { %s nx; }\n%s (%s i = 0; i < 0; i = i + 1) { nx; }\n%s \"ok\";\n", KwWhile, KwFalse, KwPrint, KwFor, KwVar, KwPrint),
-	} {
+	}
+	for _, name := range sortedStrKeys(cleanProgs) {
+		prog := cleanProgs[name]
 		want := map[string]string{"dead-fault": "ok\n", "short-circuit": "true\nfalse\n", "zero-trip-loops": "ok\n"}[name]
 		cs := &Case{Prop: "C06", Kind: "clean", Sig: "clean:" + name, Program: prog, FaultKind: "none", Runs: []Run{{Role: "clean", Cfg: scriptCfg(prog, "")}}}
 		cs.ExpectStdout = ptrS(want)
@@ -1074,3 +1077,12 @@ func firstLine2(s string) string {
 }
 
 var _ = sim.DefaultBudget
+
+func sortedStrKeys(m map[string]string) []string {
+	ks := make([]string, 0, len(m))
+	for k := range m {
+		ks = append(ks, k)
+	}
+	sort.Strings(ks)
+	return ks
+}
